@@ -104,33 +104,38 @@ def as_ref(lib_obj):
     """reference view of a library result, read only through its public attributes"""
     import Geometry3D as G
     o = lib_obj
+
+    def X(t):
+        # concrete (float) results enter the oracle as the exact rationals they are: the oracle's own arithmetic must not round
+        # (a far-away result vertex would otherwise pass a membership test by cancellation)
+        return tuple(F(c) if isinstance(c, float) else c for c in t)
     if isinstance(o, G.Point):
-        return RPoint((o.x, o.y, o.z))
+        return RPoint(X((o.x, o.y, o.z)))
     if isinstance(o, G.Segment):
         a, b = o.start_point, o.end_point
-        return RSegment((a.x, a.y, a.z), (b.x, b.y, b.z))
+        return RSegment(X((a.x, a.y, a.z)), X((b.x, b.y, b.z)))
     if isinstance(o, G.HalfLine):
         p, v = o.point, o.vector
-        return RHalfLine((p.x, p.y, p.z), (v[0], v[1], v[2]))
+        return RHalfLine(X((p.x, p.y, p.z)), X((v[0], v[1], v[2])))
     if isinstance(o, G.Line):
-        return RLine((o.sv[0], o.sv[1], o.sv[2]), (o.dv[0], o.dv[1], o.dv[2]))
+        return RLine(X((o.sv[0], o.sv[1], o.sv[2])), X((o.dv[0], o.dv[1], o.dv[2])))
     if isinstance(o, G.Plane):
         pv, n = o.point_normal()
-        return RPlane((pv[0], pv[1], pv[2]), (n[0], n[1], n[2]))
+        return RPlane(X((pv[0], pv[1], pv[2])), X((n[0], n[1], n[2])))
     if isinstance(o, G.ConvexPolygon):
-        r = RPolygon([(p.x, p.y, p.z) for p in o.points])
+        r = RPolygon([X((p.x, p.y, p.z)) for p in o.points])
         n = o.plane.n
-        r.n = (n[0], n[1], n[2])           # the library's own normal: its vertex cycle is claimed ccw about it
+        r.n = X((n[0], n[1], n[2]))           # the library's own normal: its vertex cycle is claimed ccw about it
         return r
     if isinstance(o, G.ConvexPolyhedron):
-        verts = [(p.x, p.y, p.z) for p in o.point_set]
-        faces = [[(p.x, p.y, p.z) for p in f.points] for f in o.convex_polygons]
+        verts = [X((p.x, p.y, p.z)) for p in o.point_set]
+        faces = [[X((p.x, p.y, p.z)) for p in f.points] for f in o.convex_polygons]
         r = RPolyhedron(verts, faces)
         r.oriented = []
         for f in o.convex_polygons:
             n = f.plane.n
             p0 = f.points[0]
-            r.oriented.append(((n[0], n[1], n[2]), (p0.x, p0.y, p0.z)))
+            r.oriented.append((X((n[0], n[1], n[2])), X((p0.x, p0.y, p0.z))))
         return r
     raise TypeError(type(o))
 
